@@ -537,5 +537,5 @@ V("S-mstep-d-not-stored", ["C09"], "factor_analysis", "        self._D = acc_D_A
 V("S-finalize-u-zero", ["C09"], "factor_analysis", "        n_classes = len(n_samples_per_class)\n        latent_x = self.compute_latent_x(X=X, y=y, n_classes=n_classes, UProd=UProd, latent_y=latent_y)\n        return latent_x", "        n_classes = len(n_samples_per_class)\n        return latent_x", "finalize_u returns the zero-initialised channel factors")
 V("S-ynew-dropped", ["C04"], "factor_analysis", "                X_new.append(X[class_indices])\n                y_new.append(y[class_indices])", "                X_new.append(X[class_indices])", "per-class labels never collected: zip(X, y) is empty and nothing is trained")
 V("S-scatter-subtracted", ["C14"], "wccn", "            Sw += X_l_mu_l.T @ X_l_mu_l", "            Sw -= X_l_mu_l.T @ X_l_mu_l", "per-class scatter subtracted")
-V("S-sigma-times-n", ["C10", "C13"], "ivector", "machine.sigma = (stats.snormij - fnorm_sigma_wij_tt) / stats.nij[:, None]", "machine.sigma = (stats.snormij - fnorm_sigma_wij_tt) * stats.nij[:, None]", "covariance update multiplied by the counts")
+V("S-sigma-times-n", ["C10"], "ivector", "machine.sigma = (stats.snormij - fnorm_sigma_wij_tt) / stats.nij[:, None]", "machine.sigma = (stats.snormij - fnorm_sigma_wij_tt) * stats.nij[:, None]", "covariance update multiplied by the counts")
 V("S-acc-divided", ["C10"], "ivector", "stats.nij_sigma_wij2 = stats.nij_sigma_wij2 + Nij[:, None, None] * sigma_w_ij2[None, :, :]", "stats.nij_sigma_wij2 = stats.nij_sigma_wij2 + Nij[:, None, None] / sigma_w_ij2[None, :, :]", "N / E[ww'] accumulated", kind="skip")
